@@ -329,7 +329,7 @@ def main(tier):
         obligations += r["obligations"]
         unconfirmed += r.get("unconfirmed", 0)
         st = r.get("stats") or {}
-        for k in ("solver_sat", "solver_unsat", "solver_unknown", "forked_branches", "forced_branches"):
+        for k in runner.STAT_KEYS:
             agg[k] += st.get(k, 0)
         solver_s += st.get("solver_seconds", 0.0)
         if r["paths"] >= 2:
